@@ -96,7 +96,7 @@ func (u *Unit) callStatic(st *State, fr *Frame, in *ssa.Call, fn *ssa.Function, 
 		return
 	}
 	if InRepo(fn) || fn.Synthetic != "" || u.isSpecFile(fn) {
-		if ct := u.P.ContractOf(fn); ct != nil && fn != u.Target && !u.Cfg.NoContracts[FuncName(fn)] {
+		if ct := u.P.ContractOf(fn); ct != nil && fn != u.Target && !u.Cfg.NoContracts[FuncName(fn)] && !u.Cfg.NoContracts["*"] {
 			u.useContract(st, fr, in, fn, ct, args, k)
 			return
 		}
@@ -296,8 +296,9 @@ func (u *Unit) appendBuiltin(st *State, fr *Frame, in *ssa.Call, args []Val) Val
 	if !fitsPossible {
 		// always reallocates: clean fresh region
 		r := &Region{Blk: u.allocID(st), Fresh: true}
-		j := Const("j", SInt)
-		r.C = u.defArr("C", "j", Ite(Lt(j, sLen), Select(sC, Add(sOff, j)), Select(xArr, Add(xo, Sub(j, sLen)))))
+		r.C = MkArr(func(j *Term) *Term {
+			return Ite(Lt(j, sLen), Select(sC, Add(sOff, j)), Select(xArr, Add(xo, Sub(j, sLen))))
+		})
 		u.addRegion(st, r)
 		cp := u.newInt("cap")
 		u.assume(And(Le(newLen, cp), Le(cp, BigLit(MaxLen))))
@@ -321,11 +322,10 @@ func (u *Unit) appendBuiltin(st *State, fr *Frame, in *ssa.Call, args []Val) Val
 	}
 	lo := u.name(Add(sOff, sLen), "lo")
 	hi := u.name(Add(lo, n), "hi")
-	j := Const("j", SInt)
-	inr := And(fitsC, Le(lo, j), Lt(j, hi))
-	val := Select(xArr, Add(xo, Sub(j, lo)))
+	inr := func(j *Term) *Term { return And(fitsC, Le(lo, j), Lt(j, hi)) }
+	val := func(j *Term) *Term { return Select(xArr, Add(xo, Sub(j, lo))) }
 	oldC := sr.C
-	u.setContents(st, sr.Blk.S, u.defArr("C", "j", Ite(inr, val, Select(oldC, j))))
+	u.setContents(st, sr.Blk.S, MkArr(func(j *Term) *Term { return Ite(inr(j), val(j), Select(oldC, j)) }))
 	for _, e := range st.edges[sr.Blk.S] {
 		q := st.regions[e.Other]
 		if q == nil {
@@ -334,7 +334,8 @@ func (u *Unit) appendBuiltin(st *State, fr *Frame, in *ssa.Call, args []Val) Val
 		if !q.Fresh {
 			u.frameWriteCond(st, q, And(e.Cond, fitsC, Gt(n, IntLit(0))), "append in place "+what)
 		}
-		u.setContents(st, e.Other, u.defArr("C", "j", Ite(And(e.Cond, inr), val, Select(q.C, j))))
+		qC, cond := q.C, e.Cond
+		u.setContents(st, e.Other, MkArr(func(j *Term) *Term { return Ite(And(cond, inr(j)), val(j), Select(qC, j)) }))
 	}
 	// 2. the result region
 	nb := u.newInt("ab")
@@ -346,10 +347,12 @@ func (u *Unit) appendBuiltin(st *State, fr *Frame, in *ssa.Call, args []Val) Val
 	u.assume(Ite(fitsC, Eq(nc, s.Cap), And(Le(newLen, nc), Le(nc, BigLit(MaxLen)))))
 	other := u.newArr("U")
 	end := u.name(Add(no, newLen), "end")
-	body := Ite(And(Le(no, j), Lt(j, end)),
-		Ite(Lt(Sub(j, no), sLen), Select(oldC, Add(sOff, Sub(j, no))), Select(xArr, Add(xo, Sub(Sub(j, no), sLen)))),
-		Ite(fitsC, Select(oldC, j), Select(other, j)))
-	R := &Region{Blk: nb, C: u.defArr("C", "j", body), Fresh: sr.Fresh}
+	body := func(j *Term) *Term {
+		return Ite(And(Le(no, j), Lt(j, end)),
+			Ite(Lt(Sub(j, no), sLen), Select(oldC, Add(sOff, Sub(j, no))), Select(xArr, Add(xo, Sub(Sub(j, no), sLen)))),
+			Ite(fitsC, Select(oldC, j), Select(other, j)))
+	}
+	R := &Region{Blk: nb, C: MkArr(body), Fresh: sr.Fresh}
 	u.addRegion(st, R)
 	// links: R ~ s.region when fits, and transitively s.region's links
 	link := func(a, b string, c *Term) {
@@ -365,8 +368,12 @@ func (u *Unit) appendBuiltin(st *State, fr *Frame, in *ssa.Call, args []Val) Val
 
 func (u *Unit) appendList(st *State, fr *Frame, s, x SliceV) Val {
 	if !s.Len.IsInt || !x.Len.IsInt {
-		u.limit("append on a non-byte slice of symbolic length in %s", FuncName(fr.fn))
-		return u.freshVal(st, types.NewSlice(s.Elem), "applist", false)
+		// contents are not tracked for lists of symbolic length: the result is
+		// a list of the right length with unconstrained elements
+		r := u.freshVal(st, types.NewSlice(s.Elem), "applist", false).(SliceV)
+		u.assume(Eq(r.Len, Add(s.Len, x.Len)))
+		u.assume(Neq(r.Blk, IntLit(0)))
+		return r
 	}
 	n, m := int(s.Len.I.Int64()), int(x.Len.I.Int64())
 	if m == 0 {
